@@ -83,6 +83,9 @@ Definition face_area (m : mesh T) : list T := map (fun F => g_face_area o (pts_o
 Definition face_normals (m : mesh T) : list (vec T) :=
   map (fun F => g_face_normal o (P m (znth F 0 0)) (P m (znth F 1 0)) (P m (znth F 2 0))) (faces m).
 Definition face_barycenter (m : mesh T) : list (vec T) := map (fun F => g_face_bary o (pts_of m F)) (faces m).
+(* face_circumcenter (triangular faces): None where intersect_2lines2D reports parallel lines *)
+Definition face_circumcenter (m : mesh T) : list (option (vec T)) :=
+  map (fun F => g_circumcenter o (P m (znth F 0 0)) (P m (znth F 1 0)) (P m (znth F 2 0))) (faces m).
 
 (* ---------------------------------------------------------------- attr_corners.py *)
 Definition face_corner_pairs (m : mesh T) (F : list Z) : list (T * T) :=
